@@ -69,6 +69,11 @@ def make (c):
         ts = float (rng.choice ([13.7, 22.5, 30, -19.3, 45]))
     p0 = float (rng.choice ([0, -90, 12.5, 200]))
     ps = float (rng.choice ([45, 60, -33.3, 90, 17.1]))
+    # azimuth sweeps that end (or start) exactly on 360 / 0 / 180 degrees without starting on a multiple of 360
+    re = np.random.default_rng ([c ['seed'], 103, c ['i']])
+    if re.random () < 0.15:
+        end = float (re.choice ([360.0, 360.0, 0.0, 180.0, -360.0, 720.0]))
+        p0  = end - ps * (nph - 1)
     spec ['ff'] = dict ( theta = [t0, ts, nth], phi = [p0, ps, nph]
                        , pwr = float (10 ** rng.uniform (-3, 4)), dist = float (10 ** rng.uniform (0, 5))
                        , pwr2 = float (10 ** rng.uniform (-3, 4)), dist2 = float (10 ** rng.uniform (0, 5)))
@@ -88,6 +93,7 @@ def check (c):
     ff   = spec ['ff']
     zen  = MM.Angle (*ff ['theta'])
     azi  = MM.Angle (*ff ['phi'])
+    gnd_env = m.media is not None
     viol = []
     mon  = {}
     worst = 0.0
@@ -183,6 +189,20 @@ def check (c):
     common.guarded (lambda: m.compute_far_field (zen, azi, dist = 1.0), 'compute_far_field')
     d = max (np.abs (np.array (m.far_field.e_theta) - et0).max (), np.abs (np.array (m.far_field.e_phi) - ep0).max ()) / mxr
     judge ('V/m-default-level-again', d, 1e-9, 'a request without a power level after requests for %.3g and %.3g W differs by %.3g from the first request without one' % (P, P2, d))
+    # the caller keeps its two Angle objects and changes their fields in place between requests (same number of
+    # angles): the table is the field in the directions the objects describe now
+    ang = np.array (zen.angle_deg ())
+    dz  = 1.1 if (not gnd_env or ang.max () + 1.1 <= 89.0) else (-1.1 if ang.min () - 1.1 >= 0 else 0.0)
+    zen.initial = zen.initial + dz
+    azi.initial = azi.initial - 21.5
+    azi.inc     = azi.inc * 0.5
+    common.guarded (lambda: m.compute_far_field (zen, azi, pwr = None, dist = 1.0), 'compute_far_field')
+    zn, an = MM.Angle (ff ['theta'][0] + dz, ff ['theta'][1], ff ['theta'][2]), MM.Angle (ff ['phi'][0] - 21.5, ff ['phi'][1] * 0.5, ff ['phi'][2])
+    th2, ph2 = np.meshgrid (zn.angle_deg (), an.angle_deg ())
+    e2t, e2p = ffref.far_field (m, th2, ph2, 'point')
+    dev = max (abs (np.array (m.far_field.e_theta) - e2t).max (), abs (np.array (m.far_field.e_phi) - e2p).max ()) / mx
+    judge ('point-moment.angles-changed-in-place', dev, 1e-4, 'Angle objects of the first request changed in place (zenith %+.1f, azimuth -21.5, half the azimuth step) and handed over again: the table deviates %.3g of the maximum from the field in the directions they now describe' % (dz, dev))
+    zen.initial, azi.initial, azi.inc = ff ['theta'][0], ff ['phi'][0], ff ['phi'][1]      # ... and changed back
     src = [(x.idx, complex (x.voltage)) for x in m.sources]
     m.sources = []
     for j, (idx, v) in enumerate (src):
